@@ -844,6 +844,17 @@ caf_read_strings (SF_PRIVATE * psf, sf_count_t chunk_size)
 	char *key, *value ;
 	uint32_t count, hash ;
 
+	/*
+	** The chunk is read through the header cache, which refuses to grow beyond
+	** 100k (see psf_bump_header_allocation). When the file length is not known
+	** (pipe) nothing else bounds the size field.
+	*/
+	if (chunk_size > 100 * 1024)
+	{	psf_log_printf (psf, " *** 'info' chunk too big (%D), skipping.\n", chunk_size) ;
+		psf_binheader_readf (psf, "j", (size_t) chunk_size + 4) ;
+		return 0 ;
+		} ;
+
 	if ((buf = malloc (chunk_size + 1)) == NULL)
 		return (psf->error = SFE_MALLOC_FAILED) ;
 
